@@ -101,6 +101,14 @@ def make_types(rng):
         k = rng.randrange(0, 4)
         return ascii_bits(rng, k) + "00000000" + ascii_bits(rng, 3 - k)
     add(PT("STRTERM_T", ["pt", S("STRTERM_T"), "plain", ["str", S("UTF-8"), "32", "-", "-", "1", "-", "x00", "-", "-"]], 32, term))
+    def utf16(rng, c=None, be=True):
+        txt = rng.choice(["AB", "Hi", "é1", "日本"])
+        b = txt.encode("utf-16-be" if be else "utf-16-le")
+        return "".join(f"{x:08b}" for x in b)
+    add(PT("STR16BE_T", ["pt", S("STR16BE_T"), "plain", ["str", S("UTF-16"), "32", "-", "-", "1", "-", "-", "-",
+                                                          S("mostSignificantByteFirst")]], 32, utf16))
+    add(PT("STR16LE_T", ["pt", S("STR16LE_T"), "plain", ["str", S("UTF-16LE"), "32", "-", "-", "1", "-", "-", "-", "-"]], 32,
+           lambda rng, c=None: utf16(rng, c, be=False)))
     add(PT("BIN24_T", ["pt", S("BIN24_T"), "plain", ["bin", "24", "-", "1", "-", "-"]], 24, lambda rng, c=None: rbits(rng, 24)))
     add(PT("BIN5_T", ["pt", S("BIN5_T"), "plain", ["bin", "5", "-", "1", "-", "-"]], 5, lambda rng, c=None: rbits(rng, 5)))
     return ts
